@@ -64,6 +64,9 @@ def check_fnorm(P, R):
         sq = [x for x in t if any(a.endswith(".n") for a in x[1])]
         R.check(bool(cross) and all(s_ == -1 for s_, a in cross), "POL.snorm", g.key, "- 2 F m", pol.fmt_terms(cross), f"the cross term of Snorm is not subtracted: {pol.fmt_terms(cross) or 'missing'}", st.lineno)
         R.check(bool(sq) and all(s_ == 1 for s_, a in sq), "POL.snorm", g.key, "+ N m^2", pol.fmt_terms(sq), f"the N m^2 term of Snorm is not added: {pol.fmt_terms(sq) or 'missing'}", st.lineno)
+        gc = pol.Pol(P, g, track_coef=True)
+        tc = [x for x in dict.fromkeys(gc.terms(v, gc.du.stmt_of(st))) if not any("snormij" in a for a in x[1])]
+        pol.check_coefficients(R, "POL.snorm-coef", g.key, tc, [(["sum_pxx"], None), (["sum_px"], 2), (["n"], None)], what="Snorm = S - 2 F m + N m^2", line=st.lineno)
 
 
 def check_precision(P, R):
